@@ -1,5 +1,5 @@
 (** Property C10 — emitted transactions are well-formed and self-consistent (structural part). *)
-From Tx3 Require Import Base Tir Reduce PlutusData Compile Compile_proofs Compile_reds.
+From Tx3 Require Import Base Tir Reduce PlutusData Compile Compile_proofs Compile_reds Compile_sets.
 From stdpp Require Import sorting.
 
 Theorem C10_hash_fields_presence : forall mainnet ap aos kh rw ns cm t a,
@@ -20,7 +20,19 @@ Theorem C10_redeemer_keys_distinct : forall rs,
   NoDup (map (fun r => (rd_tag r, rd_index r)) (fold_left (fun acc r => red_put r acc) rs [])).
 Proof. exact redeemers_keys_distinct. Qed.
 
+(** reference inputs, collateral inputs and required signers are listed once each, whatever the
+    template repeats (finding F10-2, repaired: a reference named by two blocks was listed twice) *)
+Theorem C10_set_fields_distinct : forall mainnet addr_parse addr_of_string keyhash_of_addr reward_of_addr native_script_ok has_cost_model t a,
+  compile_tx mainnet addr_parse addr_of_string keyhash_of_addr reward_of_addr native_script_ok has_cost_model t = Ok a ->
+  opt_NoDup (a_refs a) /\ opt_NoDup (a_collateral a) /\ opt_NoDup (a_signers a).
+Proof. exact set_fields_distinct. Qed.
+(** ... and a list that repeats nothing keeps its order *)
+Theorem C10_distinct_keeps_order : forall (l : list (bytes * Z)), NoDup l -> distinct l = l.
+Proof. exact distinct_id. Qed.
+
 Print Assumptions C10_hash_fields_presence.
 Print Assumptions C10_no_empty_multiasset.
 Print Assumptions C10_redeemers_strictly_sorted.
 Print Assumptions C10_redeemer_keys_distinct.
+Print Assumptions C10_set_fields_distinct.
+Print Assumptions C10_distinct_keeps_order.
